@@ -272,7 +272,8 @@ func c19(r *Report) {
 		okIdx := false
 		if b, y := a[3].(*ssa.BinOp); y && b.Op == token.SUB {
 			if one, isC := constInt(b.Y); isC && one == 1 {
-				if c, y := b.X.(*ssa.Call); y && calleeName(c) == "sync/atomic.AddUint32" {
+				// (the function form on an integer field, or the Add method of a typed atomic field)
+				if c, y := b.X.(*ssa.Call); y && (strings.HasPrefix(calleeName(c), "sync/atomic.Add") || (strings.HasPrefix(calleeName(c), "(*sync/atomic.") && strings.HasSuffix(calleeName(c), ").Add"))) && len(c.Call.Args) == 2 {
 					if d, isC := constInt(c.Call.Args[1]); isC && d == 1 {
 						if fa, y := c.Call.Args[0].(*ssa.FieldAddr); y && fieldObj(fa).Name() == "index" {
 							okIdx = true
